@@ -45,7 +45,7 @@ def run_demo():
         ok = "test result: ok" in out
         os.remove(os.path.join(wt, "tests", "zz_seed_demo.rs"))
         return ok, out[-300:]
-    rc, out = sh("timeout 1800 sh %s %s 2>&1" % (demo_sh, wt), cwd=wt)
+    rc, out = sh("timeout 1800 bash %s %s 2>&1" % (demo_sh, wt), cwd=wt)
     return rc == 0, out[-300:]
 
 
